@@ -329,6 +329,61 @@ def run(tier, seed, replay=None):
                 num_rep += 1
                 R.violation({'target': target, 'value': repr(val), 'rendered': t, 'literal_read_back': repr(back),
                              'what': 'a numeric constant is rendered as a literal that does not denote exactly that value'})
+    # ---------------- integers: Props/C07.v C07_integer_literal_exact (read_int (print_int z) = Some z for every integer) is tied here:
+    # what each output path writes for an integer constant is print_int z, and what the library's own lexer + int() reads from that
+    # text is read_int of it (both evaluated in Coq)
+    ints = [0, 1, -1, 7, 10, -10, 99, 100, 2 ** 31, -(2 ** 31), 2 ** 63, 2 ** 64 + 1, 10 ** 30, -(10 ** 25), 123456789012345678901234567890]
+    ints += [rng.randint(-10 ** k, 10 ** k) for k in (1, 2, 3, 5, 9, 12, 18, 19, 20, 25, 40) for _ in range(3 if tier == 'quick' else 30)]
+    irows = []
+    for z in ints:
+        for target in TARGETS:
+            try:
+                a = parse_sql("select 'X7X'", 'mindsdb')
+                if set_constant(a, z) != 1:
+                    continue
+                t = render(a, target)
+                m_ = re.match(r"SELECT\s+(\(?-?\d+\)?)", t)
+                lit = m_.group(1).strip('()') if m_ else ''
+            except Exception as e:
+                R.notes.setdefault('nonstring_errors', []).append(f'{target} {z!r}: {type(e).__name__}')
+                continue
+            try:
+                back = parse_sql('select ' + lit, 'mindsdb').targets[0]
+                back = back.value if isinstance(back, Constant) else None
+            except Exception:
+                back = None
+            irows.append((z, target, lit, back))
+    if irows:
+        cl = lambda s_: '[' + '; '.join(str(ord(c)) for c in s_) + ']%N'
+        ls = ['From Coq Require Import ZArith NArith List Bool.', 'From MSV Require Import Lib.PyStr Model.IntLit.', 'Import ListNotations.',
+              'Definition zopt_eqb (a b : option Z) : bool := match a, b with Some x, Some y => Z.eqb x y | None, None => true | _, _ => false end.',
+              '(* (value, written literal, value read back by the library) -> (print_int = written, read_int written = read back) *)',
+              'Definition ok (c : Z * str * option Z) : bool * bool :=',
+              "  let '(z, lit, back) := c in (str_eqb (print_int z) lit, zopt_eqb (read_int lit) back).",
+              'Definition cases : list (Z * str * option Z) := [',
+              ';\n'.join(f' (({z})%Z, {cl(lit)}, {"None" if back is None or isinstance(back, bool) or not isinstance(back, int) else f"Some ({back})%Z"})' for z, _, lit, back in irows),
+              '].', 'Eval vm_compute in map ok cases.']
+        write_if_changed(GEN / 'C07_int.v', '\n'.join(ls) + '\n')
+        rc_i, out_i = compile_gen('C07_int')
+        if rc_i != 0:
+            R.obligation('integer literals: Gen/C07_int.v compiles', False)
+            R.violation({'what': 'Gen/C07_int.v does not compile', 'detail': out_i[-800:], 'theorem': 'C07_integer_literal_exact (tie)'}, nofail=True)
+        else:
+            fl = re.findall(r'\((true|false), (true|false)\)', (coq_eval_lists(out_i) or [''])[-1])
+            badi = [i for i, (a_, b_) in enumerate(fl) if a_ == 'false' or b_ == 'false']
+            R.obligation(f'integer literals: every output path writes Model/IntLit.print_int z and the library reads read_int of it ({len(irows)} renderings)',
+                         not badi and len(fl) == len(irows))
+            nonstr += len(irows)
+            for i in badi[:2]:
+                z, target, lit, back = irows[i]
+                # the theorem says read_int (print_int z) = z: a rendering that is not print_int z, or is read back as something else,
+                # is a concrete violation exactly when the value read back differs from z
+                R.violation({'target': target, 'value': repr(z), 'literal_written': lit, 'model_print_int_agrees': fl[i][0] == 'true',
+                             'value_read_back_by_the_library': repr(back),
+                             'what': 'an integer constant is not written as the decimal literal of its value / is not read back as that value'},
+                            nofail=(back == z and fl[i][0] == 'true'))
+            if len(fl) != len(irows) and not badi:
+                R.violation({'what': 'Gen/C07_int.v: unexpected output', 'theorem': 'C07_integer_literal_exact (tie)'}, nofail=True)
     # ---------------- trees built in code with every option of the node: an INSERT whose cells are Constant nodes prints each cell as
     # that constant prints on its own, whatever the flags of the statement (is_plain says the values are constants, nothing more)
     from mindsdb_sql.parser.ast import Insert as Insert_, Identifier as Id_
